@@ -400,7 +400,7 @@ func realMain() int {
 	}
 	for _, u := range units {
 		ut0 := time.Now()
-		x := &Run{prog: prog, fset: prog.Fset, d: newDecls(), spec: db, arrSorts: map[string]Sort{}, arrRefEl: map[string]bool{}, arrSliceRefEl: map[string]string{}, libFieldArr: map[string]bool{}, maxPaths: *flagMaxPaths, timeout: timeout, maxDepth: 6, trusted: map[string]bool{}, modCache: map[*ssa.Function]*ModSet{}, inlined: map[string]bool{}, opaque: map[string]bool{}, closable: closable, sendable: sendable, mapZero: map[string]string{}, ctxInner: map[string]Val{}}
+		x := &Run{prog: prog, fset: prog.Fset, d: newDecls(), spec: db, arrSorts: map[string]Sort{}, arrRefEl: map[string]bool{}, arrSliceRefEl: map[string]string{}, libFieldArr: map[string]bool{}, sliceWriteCache: map[*ssa.Function]bool{}, maxPaths: *flagMaxPaths, timeout: timeout, maxDepth: 6, trusted: map[string]bool{}, modCache: map[*ssa.Function]*ModSet{}, inlined: map[string]bool{}, opaque: map[string]bool{}, closable: closable, sendable: sendable, mapZero: map[string]string{}, ctxInner: map[string]Val{}}
 		ur := &UnitResult{}
 		var finals []*State
 		if u.con != nil {
